@@ -988,6 +988,8 @@ impl<const MIN_ALIGN: usize> Bump<MIN_ALIGN> {
                 "bump pointer {cur_chunk:#p} should be aligned to the minimum alignment of {MIN_ALIGN:#x}"
             );
             cur_chunk.as_ref().ptr.set(cur_chunk.cast());
+            #[cfg(bumpalo_verif)]
+            verif_hooks::on_store(cur_chunk.as_ptr() as usize);
 
             // Reset the allocated size of the chunk.
             cur_chunk.as_mut().allocated_bytes = cur_chunk.as_ref().layout.size();
@@ -1228,6 +1230,8 @@ impl<const MIN_ALIGN: usize> Bump<MIN_ALIGN> {
                         // (reclaiming any alignment padding we may have
                         // added).
                         current_ptr.set(rewind_ptr);
+                        #[cfg(bumpalo_verif)]
+                        verif_hooks::on_store(current_footer_p.as_ptr() as usize);
                     } else {
                         // We allocated a new chunk for this result.
                         //
@@ -1245,6 +1249,8 @@ impl<const MIN_ALIGN: usize> Bump<MIN_ALIGN> {
                         // we can reset the chunk's bump finger to the start of
                         // the chunk.
                         current_ptr.set(current_footer_p.as_ref().data);
+                        #[cfg(bumpalo_verif)]
+                        verif_hooks::on_store(current_footer_p.as_ptr() as usize);
                     }
                 }
                 //SAFETY:
@@ -1336,6 +1342,8 @@ impl<const MIN_ALIGN: usize> Bump<MIN_ALIGN> {
                         // (reclaiming any alignment padding we may have
                         // added).
                         current_ptr.set(rewind_ptr);
+                        #[cfg(bumpalo_verif)]
+                        verif_hooks::on_store(current_footer_p.as_ptr() as usize);
                     } else {
                         // We allocated a new chunk for this result.
                         //
@@ -1353,6 +1361,8 @@ impl<const MIN_ALIGN: usize> Bump<MIN_ALIGN> {
                         // we can reset the chunk's bump finger to the start of
                         // the chunk.
                         current_ptr.set(current_footer_p.as_ref().data);
+                        #[cfg(bumpalo_verif)]
+                        verif_hooks::on_store(current_footer_p.as_ptr() as usize);
                     }
                 }
                 //SAFETY:
@@ -1976,6 +1986,8 @@ impl<const MIN_ALIGN: usize> Bump<MIN_ALIGN> {
             let aligned_ptr = NonNull::new_unchecked(aligned_ptr);
 
             footer.ptr.set(aligned_ptr);
+            #[cfg(bumpalo_verif)]
+            verif_hooks::on_store(footer_ptr.as_ptr() as usize);
             Some(aligned_ptr)
         }
     }
@@ -2239,6 +2251,8 @@ impl<const MIN_ALIGN: usize> Bump<MIN_ALIGN> {
             );
             let ptr = NonNull::new_unchecked(ptr);
             self.current_chunk_footer.get().as_ref().ptr.set(ptr);
+            #[cfg(bumpalo_verif)]
+            verif_hooks::on_store(self.current_chunk_footer.get().as_ptr() as usize);
         }
     }
 
@@ -2325,6 +2339,8 @@ impl<const MIN_ALIGN: usize> Bump<MIN_ALIGN> {
                 "bump pointer {new_ptr:#p} should be aligned to the minimum alignment of {MIN_ALIGN:#x}"
             );
             footer.ptr.set(new_ptr);
+            #[cfg(bumpalo_verif)]
+            verif_hooks::on_store(footer as *const ChunkFooter as usize);
 
             // NB: we know it is non-overlapping because of the size check
             // in the `if` condition.
@@ -2532,6 +2548,61 @@ unsafe impl<'a, const MIN_ALIGN: usize> Allocator for &'a Bump<MIN_ALIGN> {
         let mut ptr = self.grow(ptr, old_layout, new_layout)?;
         ptr.as_mut()[old_layout.size()..].fill(0);
         Ok(ptr)
+    }
+}
+
+/// Verification hooks (compiled only with `--cfg bumpalo_verif`): export of the
+/// private layout constants and a callback invoked whenever a chunk's bump
+/// finger is stored, so that an external harness can observe the write
+/// footprint of arena operations. Nothing here is part of the public API.
+#[cfg(bumpalo_verif)]
+#[doc(hidden)]
+#[allow(missing_docs)]
+pub mod verif_hooks {
+    use core::sync::atomic::{AtomicUsize, Ordering};
+
+    static ON_STORE: AtomicUsize = AtomicUsize::new(0);
+
+    /// FOOTER_SIZE, align_of ChunkFooter, CHUNK_ALIGN, OVERHEAD,
+    /// DEFAULT_CHUNK_SIZE_WITHOUT_FOOTER, TYPICAL_PAGE_SIZE,
+    /// align_of EmptyChunkFooter, address of EMPTY_CHUNK.
+    pub fn consts() -> [usize; 8] {
+        [
+            super::FOOTER_SIZE,
+            core::mem::align_of::<super::ChunkFooter>(),
+            super::CHUNK_ALIGN,
+            super::OVERHEAD,
+            super::DEFAULT_CHUNK_SIZE_WITHOUT_FOOTER,
+            super::TYPICAL_PAGE_SIZE,
+            core::mem::align_of::<super::EmptyChunkFooter>(),
+            super::EMPTY_CHUNK.get().as_ptr() as usize,
+        ]
+    }
+
+    /// Install (or with `None` remove) the finger-store callback; it receives
+    /// the address of the chunk footer whose finger is being stored.
+    pub fn set_on_store(f: Option<fn(usize)>) {
+        ON_STORE.store(f.map_or(0, |f| f as usize), Ordering::SeqCst);
+    }
+
+    /// The crate-private `Alloc::realloc` entry point that `RawVec` uses.
+    pub unsafe fn realloc<const MIN_ALIGN: usize>(
+        bump: &super::Bump<MIN_ALIGN>,
+        ptr: core::ptr::NonNull<u8>,
+        layout: core::alloc::Layout,
+        new_size: usize,
+    ) -> Result<core::ptr::NonNull<u8>, super::AllocErr> {
+        let mut b = bump;
+        super::alloc::Alloc::realloc(&mut b, ptr, layout, new_size)
+    }
+
+    #[inline]
+    pub(crate) fn on_store(footer: usize) {
+        let f = ON_STORE.load(Ordering::Relaxed);
+        if f != 0 {
+            let f: fn(usize) = unsafe { core::mem::transmute(f) };
+            f(footer);
+        }
     }
 }
 
